@@ -309,7 +309,7 @@ async def history_trial(lines, cfg, eav, max_zones, chunks):
         c2.setdefault("config", {}).update({"disable_discovery": True, "enable_eavesdrop": eav, "max_zones": max_zones})
         try:
             g2 = Gateway(None, input_file=io.TextIOWrapper(io.BytesIO(b"")), **{**c2, **sch})
-            await g2.start()
+            await gw.start(g2)
             sch2 = shrink(g2.schema)
             await g2.stop()
             a, b = listed_parts(sch), listed_parts(sch2)
@@ -387,7 +387,7 @@ async def schema_trial(sch):
         return [("generator-made-an-invalid-schema", str(err)[:200], "")], False
     try:
         g = Gateway(None, input_file=io.TextIOWrapper(io.BytesIO(b"")), config={"disable_discovery": True}, **json.loads(json.dumps(sch)))
-        await g.start()
+        await gw.start(g)
     except Exception as err:  # noqa: BLE001
         ctl_sensor = any(sum(1 for z in (v.get("zones") or {}).values() if z.get("sensor") == k) > 1 for k, v in sch.items() if isinstance(v, dict))
         bad_orphan = any(o[:2] not in ("13", "10", "02") for v in sch.values() if isinstance(v, dict) for o in v.get("orphans", []))
